@@ -43,6 +43,8 @@ def segments(st, src, length):
         if base is None:
             return None
         return merge(st, splice(st, base, src[2], src[3], src[4]))
+    if src[0] == "zeros":
+        return [("zero", length)]
     if src[0] == "sub":
         base = segments(st, src[1], src[2])
         if base is None:
@@ -64,12 +66,12 @@ def cut(st, segs, lo, hi):
             pass
         elif st.sys.entails_ge(pos - lo) and st.sys.entails_ge(hi - end):
             out.append(s)
-        elif s[0] == "win":
+        elif s[0] in ("win", "zero"):
             a = lo if st.sys.entails_ge(lo - pos) else pos if st.sys.entails_ge(pos - lo) else None
             b = hi if st.sys.entails_ge(end - hi) else end if st.sys.entails_ge(hi - end) else None
             if a is None or b is None:
                 return [("?",)]
-            out.append(("win", s[1], s[2] + (a - pos), b - a))
+            out.append(("win", s[1], s[2] + (a - pos), b - a) if s[0] == "win" else ("zero", b - a))
         else:
             return [("?",)]
         pos = end
@@ -97,6 +99,12 @@ def merge(st, segs):
             continue
         if s[0] == "win" and st.sys.entails_eq(s[3]):
             continue
+        if s[0] == "zero":
+            if st.sys.entails_eq(s[1]):
+                continue
+            if out and out[-1][0] == "zero":
+                out[-1] = ("zero", out[-1][1] + s[1])
+                continue
         if out and s[0] == "win" and out[-1][0] == "win" and out[-1][1] == s[1] and st.sys.entails_eq(out[-1][2] + out[-1][3] - s[2]):
             out[-1] = ("win", s[1], out[-1][2], out[-1][3] + s[3])
         else:
@@ -129,6 +137,10 @@ def seg_len(s):
         return s[3]
     if s[0] == "be":
         return Lin.const(s[1])
+    if s[0] == "zero":
+        return s[1]
+    if s[0] == "le":
+        return Lin.const(s[1])
     return None       # an unknown piece: positions after it are not comparable
 
 
@@ -137,7 +149,7 @@ def splice(st, segs, lo, hi, d):
     out = []
     pos = Lin.const(0)
     done = False
-    new = ("be", d[1], d[2]) if d[0] == "be" and d[1] else (("?",) if d[0] == "be" else None)
+    new = (("le", d[1]) if len(d) > 3 and d[3] == "le" else ("be", d[1], d[2])) if d[0] == "be" and d[1] else (("?",) if d[0] == "be" else ("zero", hi - lo) if d[0] == "zero" else None)
     for s in segs:
         ln = seg_len(s)
         if ln is None:
@@ -147,14 +159,14 @@ def splice(st, segs, lo, hi, d):
             out.append(s)                       # wholly before the patch (or after it was placed)
         elif st.sys.entails_ge(pos - hi):
             out.append(s)
-        elif s[0] == "win" and st.sys.entails_ge(lo - pos) and st.sys.entails_ge(end - hi):
-            out.append(("win", s[1], s[2], lo - pos))
+        elif s[0] in ("win", "zero") and st.sys.entails_ge(lo - pos) and st.sys.entails_ge(end - hi):
+            out.append(("win", s[1], s[2], lo - pos) if s[0] == "win" else ("zero", lo - pos))
             if new is not None:
                 out.append(new)
             else:
                 sub = segments(st, d[1], hi - lo)
                 out += sub if sub is not None else [("?",)]
-            out.append(("win", s[1], s[2] + (hi - pos), end - hi))
+            out.append(("win", s[1], s[2] + (hi - pos), end - hi) if s[0] == "win" else ("zero", end - hi))
             done = True
         else:
             return [("?",)]
@@ -180,6 +192,10 @@ def show_segments(segs):
             out.append("%s[%r .. +%r]" % (s[1], s[2], s[3]))
         elif s[0] == "be":
             out.append("be%d(%r)" % (s[1] * 8, s[2]))
+        elif s[0] == "zero":
+            out.append("zeros[%r]" % (s[1],))
+        elif s[0] == "le":
+            out.append("le%d(..)" % (s[1] * 8))
         else:
             out.append("?")
     return " ++ ".join(out) or "empty"
